@@ -232,6 +232,32 @@ CHECKS["C04"] = dict(
          "current orientation; azimuthal vs single compared at the FFT length the azimuthal run writes back; RotD0=min "
          "and RotD100=max additionally required.")
 
+CHECKS["C09"] = dict(
+    engine="E1", section="4/C09",
+    text="BFS (depth 2 quick / 3 thorough) over histories of process() calls for every processing path (5 "
+         "frequency-domain formulas, single azimuth, RotDpp, azimuthal, diffuse field, smoothed and raw PSD) x Tukey "
+         "widths {0, 0.1, 0.5} x FFT requests {None, {'n': None}, {'n': 128}}, interleaved with in-place edits of the "
+         "held settings objects and of the recordings; every process() transition is judged: recordings bit-identical "
+         "to a deep snapshot (samples, dt, orientation, metadata), result bit-identical to the same call on pristine "
+         "objects of the same FFT length, identical on immediate and later repetition with the same settings object; "
+         "after every operation all earlier results are re-read (frequency, amplitude, masks, peaks, azimuths, meta).",
+    note="One genuine defect (re-resolution of fft n=None on the second call) is recorded in known_findings.json under a "
+         "key specific to that history class; a result difference between calls that saw different sample data is "
+         "attributed to the inputs-modified finding; module-global state affecting judged and reference calls alike is "
+         "outside a differential oracle (C01 covers absolute values, C19 per-process state).")
+CHECKS["C15"] = dict(
+    engine="E1", section="4/C15",
+    text="BFS over every history of <=2 (quick) / <=3 (thorough, last level restricted) operations from {construct any "
+         "of the 8 settings classes, assign an attribute from a value menu (lists, tuples, arrays, None, scalars, every "
+         "registered method and alias name), mutate a list/array/dict-valued attribute in place, save, load, read "
+         "through the type-dispatching reader, (pre)process tiny recordings} on up to three live settings objects, "
+         "each root in its own forked process; on every transition all other live objects must be unchanged, in every "
+         "state freshly constructed objects of all eight classes must equal the defaults recorded at start and a "
+         "plain-dict model must equal every live object; every Save is read back both ways and must give the same "
+         "class, element-wise equal content and a bit-identical (pre)processing result.",
+    note="instrument_transfer_function stays None; *_method/version attributes are not reassigned; Load only between "
+         "objects of the same class; states with corrupted class defaults are reported and not expanded.")
+
 NOT_APPLICABLE = []
 
 PENDING = ["C01", "C02", "C03", "C04", "C05", "C06", "C07", "C09", "C10", "C11", "C12", "C13",
